@@ -10,11 +10,25 @@ import (
 	"github.com/pkg/errors"
 )
 
-// bitsAreValid returns false for header target bits that can't be converted to a difficulty.
-// bitcoin.ConvertToDifficulty panics (index out of range) when the encoded number is one byte
-// long: a length byte of one, or of two with a zero leading mantissa byte.
+// bitsAreValid returns false for header target bits that can't be converted to a difficulty or that
+// the nodes don't accept as a target: negative (sign bit set), zero, a length byte of zero (which
+// bitcoin.ConvertToDifficulty wraps to a 255 byte number) or of more than 32 bytes, and numbers
+// that are one byte long (a length byte of one, or of two with a zero leading mantissa byte), on
+// which bitcoin.ConvertToDifficulty panics (index out of range).
 func bitsAreValid(bits uint32) bool {
+	if (bits & 0x00800000) != 0 {
+		return false // sign bit set, negative targets are not valid
+	}
+
+	if (bits & 0x007fffff) == 0 {
+		return false // zero target
+	}
+
 	length := uint8((bits >> 24) & 0xff)
+	if length == 0 || length > 32 {
+		return false // zero or more than 256 bits
+	}
+
 	if (bits & 0x00ff0000) == 0 {
 		length--
 	}
@@ -38,7 +52,9 @@ func (b Branch) Target(ctx context.Context, height int) (*big.Int, error) {
 		return nil, errors.Wrap(err, "first header stats")
 	}
 
-	timeSpan := lastTime - firstTime
+	// The time span is signed. The median time of the last blocks can be before the median time
+	// of the first blocks.
+	timeSpan := int64(lastTime) - int64(firstTime)
 
 	// Apply time span limits
 	if timeSpan < 72*600 {
@@ -55,9 +71,19 @@ func (b Branch) Target(ctx context.Context, height int) (*big.Int, error) {
 	// Projected Work (PW) = (W * 600) / TS.
 	projected := &big.Int{}
 	projected.Mul(work, big.NewInt(600))
-	projected.Div(projected, big.NewInt(int64(timeSpan)))
+	projected.Div(projected, big.NewInt(timeSpan))
 
-	target := bitcoin.ConvertToWork(projected)
+	if projected.Sign() <= 0 {
+		// No work in the period, which can't happen with valid headers, so use the minimum
+		// difficulty.
+		return (&big.Int{}).Set(bitcoin.MaxWork), nil
+	}
+
+	// Target (T) = (2^256 - PW) / PW, the same way the nodes invert work into a target.
+	target := &big.Int{}
+	target.Lsh(big.NewInt(1), 256)
+	target.Sub(target, projected)
+	target.Div(target, projected)
 
 	if target.Cmp(bitcoin.MaxWork) > 0 {
 		target.Set(bitcoin.MaxWork)
@@ -94,8 +120,22 @@ func (b Branch) MedianTimeAndWork(ctx context.Context,
 		height--
 	}
 
-	// Sort by time
-	sort.Sort(list)
+	if count == 3 {
+		// Use the same three comparisons as the nodes (GetSuitableBlock) so that headers with equal
+		// times are ordered the same way and the same header's work is used.
+		if list[0].time > list[2].time {
+			list.Swap(0, 2)
+		}
+		if list[0].time > list[1].time {
+			list.Swap(0, 1)
+		}
+		if list[1].time > list[2].time {
+			list.Swap(1, 2)
+		}
+	} else {
+		// Sort by time
+		sort.Sort(list)
+	}
 
 	// Get values from the middle item in the list.
 	result := list[count/2]
